@@ -35,7 +35,7 @@ check("C12", "other", "Exhaustive exact-rational monotonicity: v2/v3 canonical f
 check("C13", "other", "Headers pairwise prefix-incomparable and equal to the specification; header guard is the first statement; v2 starts at 'AV'. The clause 'Vector() output is accepted by its own parser' is decided by C02's rule set, which this check also runs.",
       "v2 clause relies on C01's loop; that the parser loop accepts the emitted string is shared with C01/C02.", T_AST + "constant comparison and guard-shape/dominance check; C02's serializer/parser table agreement and string-length rule", "DESIGN §5 C13")
 check("C14", "other", "Effect analysis: no writes to package-level state, only Set writes through *T, pool typestate, private buffer, concurrency census.",
-      "Go memory model and sync.Pool contract trusted.", "SSA-based effect and typestate analysis (go/ssa): stores rooted at globals or *T parameters on paths of the documented read-only API, taint of the pooled value; provenance of Vector's returned bytes followed to a make in the same call by symbolic interpretation (append-only helper discipline otherwise); thin wrappers around the pool are inlined at source level first; the splitter writes every slot it reports (shape, or bounded tabulation of its contract) and the caller's reslice follows its return convention", "DESIGN §5 C14, AS-BUILT 21, 36, 46")
+      "Go memory model and sync.Pool contract trusted.", "SSA-based effect and typestate analysis (go/ssa): stores rooted at globals or *T parameters on paths of the documented read-only API, taint of the pooled value; provenance of Vector's returned bytes followed to a make in the same call by symbolic interpretation (append-only helper discipline otherwise); thin wrappers around the pool are inlined at source level first; the splitter writes every slot it reports (shape, or bounded tabulation of its contract) and the caller's reslice follows its return convention; conservative alias/escape analysis of every package-level slice, map, pointer and array (append on a reslice, copy, element stores through locals, callees that store through parameters)", "DESIGN §5 C14, AS-BUILT 21, 36, 46, 47")
 check("C15", "proof", "Complete for every non-NaN float64: threshold partition into 13 regions per package, decision list evaluated per region, three packages identical.",
       "NaN unspecified. Trusted: constants are read through go/types as float64 values.", T_AST + "region (threshold-partition) analysis of a comparison-only decision list", "DESIGN §5 C15")
 check("C16", "proof", "Complete: all byte reads are whole-field definedness predicates; 2^15 definedness combinations enumerated against CVSS-B[T][E].",
@@ -56,7 +56,7 @@ m = {
  "hooks": {"guard": "verif", "enable": "none needed: the checks read /repo's source; no build tag is consulted", "baseline_off_cmd": BASE_OFF, "source_commits": [], "add_only": True},
  "engines": [{"name": "cvsscheck", "path": "/verif/checker", "serves_properties": sorted(CHECKS), "kind_free_text": "repository-specific static analyser (Go; go/packages, go/types, go/cfg, go/ssa from vendored x/tools v0.29.0)"}],
  "checks": [],
- "notes": "All checks parse and type-check /repo's current working tree on every run; repository code is never compiled and run. Besides pattern, dataflow and abstract-interpretation rules the analyser contains its own evaluators (DESIGN section 0): complete tabulation of loop-free fragments over finite enum domains, symbolic interpretation of whole functions on a symbolic receiver, and three BOUNDED tabulations over concrete strings that are not static analysis and are labelled so in every verdict (R01.scan, the fallback of R06.cut, the part-splitter contract of splitsem.go); they are supplementary and never the only basis of a 'proof'-level claim.",
+ "notes": "All checks parse and type-check /repo's current working tree on every run; repository code is never compiled and run. Helper packages of the same module imported by the four version packages are merged into them at source level first (overlay, type-checked). Besides pattern, dataflow and abstract-interpretation rules the analyser contains its own evaluators (DESIGN section 0): complete tabulation of loop-free fragments over finite enum domains, symbolic interpretation of whole functions on a symbolic receiver, and three BOUNDED tabulations over concrete strings that are not static analysis and are labelled so in every verdict (R01.scan, the fallback of R06.cut, the part-splitter contract of splitsem.go); they are supplementary and never the only basis of a 'proof'-level claim.",
  "not_applicable": [{"property_id": k, "reason": v} for k, v in sorted(NOT_YET.items())],
 }
 for id in sorted(CHECKS):
